@@ -189,7 +189,8 @@ pub struct Doy {
 }
 
 fn doy_strategy() -> BS<Doy> {
-    let y = prop_oneof![3 => 1i32..=9999, 2 => 1890i32..2110, 1 => prop::sample::select(vec![1i32, 4, 100, 400, 1600, 1899, 1900, 1901, 2000, 2100, 9999])];
+    // years before year 1 are proleptic Gregorian years like any other (year 0 is a leap year)
+    let y = prop_oneof![3 => 1i32..=9999, 2 => 1890i32..2110, 1 => prop::sample::select(vec![1i32, 4, 100, 400, 1600, 1899, 1900, 1901, 2000, 2100, 9999]), 1 => -9999i32..=0, 1 => prop::sample::select(vec![0i32, -1, -3, -4, -5, -99, -100, -101, -399, -400, -401, -9999])];
     (y, 0u8..6, 0u32..366, any::<u64>(), 0usize..9)
         .prop_map(|(y, kind, k, r, s)| {
             let len = if is_leap(y as i64) { 366 } else { 365 };
